@@ -130,6 +130,13 @@ func (s *Server) ListStores(ctx context.Context, req *openfgav1.ListStoresReques
 		return nil, err
 	}
 
+	// With access control, storeIDs is the (non-nil) list of the stores the caller may get. The datastores
+	// treat an empty ID list as "no filter", so a caller that may list stores but can get none of them
+	// must be answered here with an empty page instead of every store.
+	if storeIDs != nil && len(storeIDs) == 0 {
+		return &openfgav1.ListStoresResponse{Stores: []*openfgav1.Store{}}, nil
+	}
+
 	// even though we have the list of store IDs, we need to call ListStoresQuery to fetch the entire metadata of the store.
 	q := commands.NewListStoresQuery(s.datastore,
 		commands.WithListStoresQueryLogger(s.logger),
